@@ -193,7 +193,7 @@ CLAIMED['C14'] = {
             'over a RandomState-hashed collection; every seed_from_u64 seed has no nondeterministic source in its backward '
             'slice; every clock value flows only into elapsed-time logging; the comparators of the three value-based ordering '
             'strategies compare the input position only after the full coordinate comparison; simplex positions are computed on the '
-            'sequence they are applied to; hashes over the vertex set (seeds) are combined independently of the listing order; ties between coordinate-equal inputs are broken by UUID before the position; nothing read from a process-wide static reaches a result. Decides the absence of '
+            'sequence they are applied to; hashes over the vertex set (seeds) are combined independently of the listing order; ties between coordinate-equal inputs are broken by UUID before the position; nothing read from a process-wide static reaches a result. thread-local state is touched only by the scoped recursion guard of the heuristic rebuild; the epsilon de-duplication is fed vertices in canonical order. Decides the absence of '
             'nondeterminism sources (run-to-run / cross-process / cross-thread) and those necessary conditions of '
             'order-independence, not order-independence of the result as a whole.',
     'note': 'Trusted: rustc MIR callee resolution; hasher identification by type string (FxBuildHasher vs default); '
